@@ -12,6 +12,7 @@ R3 a session ends with the namespace connection: either the namespace-end
 import ast
 
 from ..model import AnalysisError, FuncInfo
+from ..known_names import KNOWN_NAMES
 from ..sym import U, is_const, run_function
 from ..util import bind_call, strip_await, where, SA, SERVER, walk_own
 from .common import txt, trigger_calls
@@ -233,13 +234,28 @@ def r4_ownership(ctx, fam):
                                'namespace entry of the session',
                                where(f, node))
                         continue
-                    ctx.check(f.name in ('get_session', 'save_session'),
+                    owner_ok = f.name in ('get_session', 'save_session')
+                    if not owner_ok and f.name not in KNOWN_NAMES:
+                        # a helper introduced later: it belongs to the
+                        # accessors when nobody else calls it
+                        callers = set()
+                        for cn in (S, 'BaseServer'):
+                            for g in m.cls(cn).methods.values():
+                                for y in walk_own(g.node):
+                                    if isinstance(y, ast.Call) and \
+                                            isinstance(y.func,
+                                                       ast.Attribute) and \
+                                            y.func.attr == f.name:
+                                        callers.add(g.name)
+                        owner_ok = bool(callers) and callers <= {
+                            'get_session', 'save_session'}
+                    ctx.check(owner_ok,
                               '%s.%s' % (cname, f.name), 'engine.io session '
                               'accessed only by get_session/save_session',
                               key='session-owner', reason='%s reads or '
                               'writes the engine.io session directly'
                               % f.name, where=where(f, node))
-    if n < 2:
+    if n < 1:
         raise AnalysisError('C16.R4: session accessors not found in ' + S)
     # the manager never holds session data
     for cname in ('BaseManager',):
@@ -254,7 +270,7 @@ def r4_ownership(ctx, fam):
 
 def run(ctx):
     ctx.rule('C16.R4', 'only get_session/save_session access the '
-             'engine.io session', floor=4)
+             'engine.io session', floor=2)
     for fam in SA:
         r4_ownership(ctx, fam)
     ctx.rule('C16.R1', 'get_session/save_session use the same transport '
